@@ -272,6 +272,8 @@ func ruleStrictConverge(c *Ctx, rule string, shorts ...string) {
 							continue
 						}
 						c.ok(rule, key, bf.cond.Pos(), "the two positions are exchanged only while they differ")
+					} else if meetingBranch(l, pi, pj) {
+						c.ok(rule, key, bf.cond.Pos(), "the positions may meet, and the round in which they do is a branch of its own (a test of the two positions for equality inside the loop): the exchange runs only while they differ")
 					} else if readsBeforeWrites(l) {
 						c.ok(rule, key, bf.cond.Pos(), "the positions may meet, but each round reads both ends before it writes either (one parallel assignment): the middle letter exchanged with itself ends up complemented once")
 					} else {
@@ -284,6 +286,51 @@ func ruleStrictConverge(c *Ctx, rule string, shorts ...string) {
 	if n == 0 {
 		c.und(rule, "strictconverge", token.NoPos, "no converging two-position loop found in a RevComp method")
 	}
+}
+
+// meetingBranch: inside the loop a branch tests the two positions for equality,
+// and stores into the sequence happen on both of its sides (the middle is
+// complemented on one, the ends exchanged on the other).
+func meetingBranch(l *ssaLoop, pi, pj *ssa.Phi) bool {
+	for b := range l.body {
+		ifi, ok := b.Instrs[len(b.Instrs)-1].(*ssa.If)
+		if !ok || len(b.Succs) != 2 {
+			continue
+		}
+		eq, ok := ifi.Cond.(*ssa.BinOp)
+		if !ok || (eq.Op != token.EQL && eq.Op != token.NEQ) {
+			continue
+		}
+		if !((eq.X == ssa.Value(pi) && eq.Y == ssa.Value(pj)) || (eq.X == ssa.Value(pj) && eq.Y == ssa.Value(pi))) {
+			continue
+		}
+		stores := func(from *ssa.BasicBlock) bool {
+			seen := map[*ssa.BasicBlock]bool{}
+			work := []*ssa.BasicBlock{from}
+			for len(work) > 0 {
+				x := work[0]
+				work = work[1:]
+				// the side on which the positions have met may leave the loop (break) before it stores
+				if seen[x] || x == l.head || len(seen) > 12 {
+					continue
+				}
+				seen[x] = true
+				for _, ins := range x.Instrs {
+					if st, ok := ins.(*ssa.Store); ok {
+						if _, isIdx := st.Addr.(*ssa.IndexAddr); isIdx {
+							return true
+						}
+					}
+				}
+				work = append(work, x.Succs...)
+			}
+			return false
+		}
+		if stores(b.Succs[0]) && stores(b.Succs[1]) {
+			return true
+		}
+	}
+	return false
 }
 
 // readsBeforeWrites: all stores of the loop body sit in one block, and no memory is read there after the first of them.
